@@ -36,11 +36,11 @@ ASSUMPTIONS = [
 FLOORS = {
     "quick": {"definitions": 1500, "uses:ACCEPT": 15000, "uses:REJECT": 30000,
               "trees-compared": 15000, "roundtrips": 15000, "unregistered-probes": 5000,
-              "uses:UNSPEC": 1000, "derived-definitions": 300,
+              "uses:UNSPEC": 1000, "derived-definitions": 300, "redefinitions": 300,
               "derived-uses:ACCEPT": 3000},
     "thorough": {"definitions": 8000, "uses:ACCEPT": 150000, "uses:REJECT": 150000,
                  "trees-compared": 150000, "roundtrips": 150000, "unregistered-probes": 16000,
-                 "uses:UNSPEC": 8000, "derived-definitions": 3000,
+                 "uses:UNSPEC": 8000, "derived-definitions": 3000, "redefinitions": 3000,
                  "derived-uses:ACCEPT": 30000},
 }
 SHARD_TIMEOUT = {"quick": 600, "thorough": 3000}
@@ -105,6 +105,15 @@ def gen_definition(rng, idx):
             c["slots"].append({"name": "slotx", "tags": [":tx%s" % rng.choice("abc")],
                                "param": rng.choice([None, {"type": "string"}])})
         d["child"] = c
+    return d
+
+
+def gen_redefinition(rng, idx, name, role, ext):
+    """another definition under the SAME command name (a plug-in reloaded with a new version
+    of its command): registering it replaces the first one"""
+    d = gen_definition(rng, idx)
+    d.pop("child", None)
+    d["name"], d["role"], d["ext"] = name, role, ext
     return d
 
 
@@ -506,6 +515,11 @@ def evaluate_definition(d, seed, others):
         run_uses(c)
         cnt("derived-uses:ACCEPT", out["counts"].get("uses:ACCEPT", 0) - before)
         run_uses(d, spec)  # and the parent again, after the child has been used
+    if d.get("redefine"):
+        r = d["redefine"]
+        slc.add_commands(build_class(r))
+        cnt("redefinitions")
+        run_uses(r)
     # unregistered names remain unknown
     for nm in ["foobar"] + others:
         for tmpl in (b"%s;", b'%s "a";', b"if %s { keep; }"):
@@ -533,6 +547,9 @@ def _same_value(val, toks):
 def run_shard(tier, shard, res: Result):
     rng = random.Random(shard["rs"])
     defs = [gen_definition(rng, shard["base"] + i) for i in range(shard["n"])]
+    for i, d in enumerate(defs):
+        if i % 4 == 0:
+            d["redefine"] = gen_redefinition(rng, shard["base"] + i, d["name"], d["role"], d["ext"])
     for i, d in enumerate(defs):
         others = [x["name"] for x in (defs[i - 1], defs[(i + 1) % len(defs)]) if x is not d]
         r = core.fork_call(evaluate_definition, d, shard["rs"] * 131 + i, others)
